@@ -72,6 +72,19 @@ def typeorder(t1, t2):
         return typeorder(t2, t1).opposite()
 
     if o1:
+        if (
+            o1 is type
+            and not o2
+            and isinstance(t2, type)
+            and t2 is not type
+            and issubclass(t2, type)
+        ):
+            # type[K] against a metaclass: K is one of its instances, or not;
+            # type[object] stands for every class
+            (k,) = get_args(t1) or (object,)
+            if k is object:
+                return Order.MORE
+            return Order.LESS if isinstance(k, t2) else Order.NONE
         if not o2:
             order = typeorder(o1, t2)
             if order is order.SAME:
@@ -138,6 +151,17 @@ def subclasscheck(t1, t2):
         o1 = None
     if not isinstance(o2, type):
         o2 = None
+
+    if (
+        o1 is type
+        and o2 is None
+        and isinstance(t2, type)
+        and t2 is not type
+        and issubclass(t2, type)
+    ):
+        # type[K] against a metaclass: K is one of its instances, or not
+        (k,) = get_args(t1) or (object,)
+        return isinstance(k, t2)
 
     if o1 or o2:
         o1 = o1 or t1
